@@ -132,11 +132,12 @@ func runWorker(prop string, tier int) {
 	}
 	symterp.Tier = tier
 	m := symterp.NewMachine(prog)
+	m.SolverTimeoutMS = 4000 // incremental queries; unknown falls back to one-shot solvers (30 s each)
 	opts := symterp.ExploreOpts{MaxViolPerLabel: 2, MaxSamples: 3, MaxPaths: 30000, TimeBudget: 150 * time.Second}
 	if tier == 1 {
 		opts.MaxPaths = 400000
 		opts.TimeBudget = 30 * time.Minute
-		m.SolverTimeoutMS = 60000
+		m.SolverTimeoutMS = 20000
 	}
 	if v := os.Getenv("GOSYM_MAXPATHS"); v != "" {
 		opts.MaxPaths, _ = strconv.Atoi(v)
